@@ -9,7 +9,7 @@ Oracle: the five clauses of the property evaluated on the real objects by identi
 import itertools
 
 from harness import common
-from harness.trig_lib import Lib, Real, Snapshot, drv_line, has_dup_target, show_list
+from harness.trig_lib import Lib, Real, Runner, show_list
 
 
 # ----------------------------------------------------------------------------------------------- enumeration
@@ -91,128 +91,6 @@ def all_ops(n, level):
     for s in sels(n, full) + [f"i{n}", "i-1", f"d{n}", f"d{n + 1}"]:
         ops.append(f"get {s}")
     return ops
-
-
-def changes_state(cmd):
-    return cmd.split()[0] not in ("get", "init", "setorder", "eff")
-
-
-# ----------------------------------------------------------------------------------------------- the case runner
-class Runner:
-    def __init__(self, ctx, R, lib, pid):
-        self.ctx, self.R, self.lib, self.pid = ctx, R, lib, pid
-        self.cmds, self.expect, self.meta = [], [], []
-        self.viol = {}
-        self.mode = self.probe()
-        self.push(f"mode {self.mode[0]} {self.mode[1]}", "ok", None)
-
-    def push(self, cmd, obs, meta):
-        self.cmds.append(drv_line(cmd)); self.expect.append(obs); self.meta.append(meta)
-
-    def probe(self):
-        """which variant of the two recorded defects does this tree implement (selects the model variant only; the
-        oracles below do not depend on it)"""
-        real = Real(self.lib, self.lib.detached())
-        real.execute("init 3 a1|-|- -"); real.execute("remove i1")
-        f4 = 1 if real.tm.triggers[0].effects[0].trigger_id == -1 else 0
-        real.reset()
-        real.execute("init 2 a1.d1|- -"); real.execute("tree i0")
-        f15 = 1 if len(real.tm.triggers) == 4 else 0
-        return f4, f15
-
-    def violation(self, sig, what, replay, size):
-        key = tuple(sorted(sig.items()))
-        if key not in self.viol or size < self.viol[key][0]:
-            self.viol[key] = (size, sig, what, replay)
-
-    def flush_violations(self):
-        for _, (size, sig, what, replay) in sorted(self.viol.items(), key=lambda kv: kv[1][0]):
-            self.R.violation(sig, what, replay)
-
-    def case(self, real, env, base, ops, tags=(), oracle=None):
-        """one history: `base` (an init command) followed by `ops` on a freshly reset manager"""
-        R = self.R
-        real.reset()
-        self.push("reset", "ok", None)
-        hist = []
-        links = "a" in base.split()[2] or "d" in base.split()[2] if base.startswith("init") else True
-        changed = False
-        status = "ok"
-        synced = True
-        gen = ops if callable(ops) else None
-        ops = [] if gen else list(ops)
-        queue = [base] + ops
-        qi = 0
-        while True:
-            if qi < len(queue):
-                cmd = queue[qi]
-            elif gen is not None:
-                cmd = gen(len(real.tm.triggers), qi - 1)
-                if cmd is None:
-                    break
-                ops.append(cmd)
-            else:
-                break
-            qi += 1
-            quiet = cmd.startswith("q ")
-            body = cmd[2:] if quiet else cmd
-            pre = Snapshot(real, with_order=synced)
-            st, ret = real.execute(body)
-            hist.append(cmd)
-            replay = {"env": env, "base": base, "ops": hist[1:]}
-            if st == "error":
-                self.push(cmd, "error", replay)
-                status = "error"
-                break
-            obs = real.observe(ret, with_order=not quiet)
-            synced = not quiet
-            bad = (oracle or self.c06)(real, body, pre, ret, not quiet)
-            stop = False
-            for item in bad:
-                clause, text = item[0], item[1]
-                opn = item[2] if len(item) > 2 else body.split()[0]
-                sig = {"op": opn, "clause": clause}
-                if body.split()[0] in ("tree", "treepp") and clause != "removed-target":
-                    ws = body.split()
-                    sig["dup_target"] = has_dup_target(pre, real._sel_obj(pre, ws[1]))
-                    sig["grouped"] = body.split()[0] == "treepp" and ws[5] != "none"
-                self.violation(sig, f"{text}  [after {hist}]", replay, len(base) + sum(len(h) for h in hist))
-                if clause in ("id-position", "effects-kept"):
-                    stop = True
-            if stop:
-                status = "violation"
-                break                  # aliased list: the value model cannot follow, the history ends here
-            self.push(cmd, obs, replay)
-            if changes_state(body):
-                changed = True
-        opn = [c.split()[1] if c.startswith("q ") else c.split()[0] for c in ops]
-        R.case(key=(env, base) + tuple(ops), nontrivial=bool(links and changed and status == "ok"),
-               sample={"env": env, "base": base, "ops": list(ops), "last": self.expect[-1][:160]},
-               tags=tuple("op:" + o for o in opn) + (f"n:{base.split()[1]}" if base.startswith("init") else "n:?", "st:" + status) + tuple(tags))
-
-    @staticmethod
-    def c06(real, cmd, pre, ret, with_order):
-        return real.c06_oracle(cmd, pre, ret, with_order)
-
-    def compare(self):
-        drv = self.ctx.driver()
-        R = self.R
-        if drv is None:
-            R.extra["driver"] = "unavailable (Lean build failed) - oracles only"
-            return
-        out = drv.batch(self.cmds)
-        # a history is a run of lines between two `reset`s: report only its first disagreement
-        skip = False
-        for cmd, o, x, m in zip(self.cmds, out, self.expect, self.meta):
-            if cmd == "reset":
-                skip = False
-            if skip:
-                continue
-            if o != x:
-                R.mismatch(cmd, m, impl=x, model=o)
-                skip = True
-            else:
-                R.traces += 1
 
 
 def random_history(rng, nmax, length):
